@@ -107,8 +107,10 @@ def analyse(case, res):
 
     def L(proc, arch, name):
         return loc.get(proc, {}).get(arch + "." + name)
+    at = -1
     try:
         for i, ob in enumerate(res["steps"]):
+            at = i
             f, br = generic_failures(i, ob)
             fails += f; breaks += br
             if br:
@@ -210,8 +212,13 @@ def analyse(case, res):
             pre = post
             if oc.startswith("error"):
                 break
-    except (Unencodable, KeyError, IndexError) as e:
-        breaks.append("observation outside the typed model's universe: %r" % (e,))
+    except (Unencodable, KeyError, IndexError, TypeError, ValueError) as e:
+        breaks.append("observation outside the typed model's universe (label or value unknown to coq/C16/Rkv.v): %r" % (e,))
+        # the tie is broken from here on; the property's oracle (no failed assertion, no TLA+ type error, no crash) needs no model:
+        # keep judging the rest of the walk
+        for j in range(at + 1, len(res["steps"])):
+            f, br = generic_failures(j, res["steps"][j])
+            fails += f
     out["coq"] = "(mkCfg %d %d %d true, [%s])" % (nr, nc, cfg["BUFFER_SIZE"], ";\n  ".join(steps))
     out["nontrivial"] = responses >= 1
     out["stats"] = {"client_operations_completed": responses, "disconnects": disconnects}
